@@ -228,6 +228,23 @@ def r3(ctx: Ctx):
       ctx.fail(rule, un, 'unregister: self.data[address] = None',
                'unregister no longer marks the worker dead with None',
                node=un.node)
+    # ... on EVERY path: a death notice can be the first thing heard of an
+    # address (shutdown of a never-contacted worker); without the tombstone the
+    # next refresh counts as first contact and the worker is alive again
+    if st:
+      g = cfgm.cfg_of(un.node)
+      ids = {id(s_) for s_ in st}
+      miss = g.must_pass(g.entry, [g.exit_ret], lambda n: n.ast is not None and id(n.ast) in ids,
+                         cfgm.only_normal)
+      if miss is None:
+        ctx.ok(rule, un, 'every return of unregister has stored the dead marker', st[0])
+      else:
+        ctx.fail(rule, un, 'unregister: the dead marker is stored on every path',
+                 'unregister can return without storing the dead marker (path: '
+                 + ' -> '.join(x_[:40] for x_ in miss[:6]) + '): a death notice for an'
+                 ' address never heard of before leaves no tombstone, the next refresh'
+                 ' counts as first contact and the dead worker is reported alive again',
+                 node=un.node)
   si = ci.methods.get('__setitem__')
   if si is not None and any(isinstance(x, ast.Raise) for x in si.node.body):
     ctx.ok(rule, si, '__setitem__ raises', si.node)
@@ -251,7 +268,7 @@ def r3(ctx: Ctx):
                                              or 'worker_registry()' in unparse(t.value)):
           ctx.fail(rule, fi, x, 'the worker registry table is written from'
                    ' outside WorkerRegistry')
-  ctx.floor(rule, 5)
+  ctx.floor(rule, 6)
 
 
 def r4(ctx: Ctx):
@@ -521,6 +538,14 @@ def r6(ctx: Ctx):
     exits = [g.exit_exc] + ([g.exit_close] if g.is_generator else [])
     if not container_ok:
       exits.append(g.exit_ret)
+    if container_ok is False and _CONTAINER_WITNESS.get(id(g)):
+      d, w = _CONTAINER_WITNESS[id(g)]
+      ctx.fail(rule, fi, f'{fi.qualname}: a worker taken out of the tracking container is released at once',
+               f'after `{unparse(d.ast)}` the worker is no longer covered by the clean-up loop over'
+               ' the container, yet a statement that can raise (or a path to the loop head /'
+               ' return) comes before its own release(): when it raises the stage fails while'
+               ' that worker stays acquired', node=d.ast, witness=w[-8:])
+      continue
     worst = None
     for a in acq:
       # the variable that receives the acquired worker (None = nothing held,
@@ -626,6 +651,9 @@ def _nested(fn):
   return out
 
 
+_CONTAINER_WITNESS: dict = {}
+
+
 def _container_discipline(g, fi) -> bool:
   """while ... or <container>: ... del container[w]; w.release()"""
   dels = [n for n in g.nodes if isinstance(n.ast, ast.Delete)]
@@ -642,12 +670,28 @@ def _container_discipline(g, fi) -> bool:
   if not guarded:
     return False
   for d in dels:
+    keys = {unparse(t.slice) for t in d.ast.targets if isinstance(t, ast.Subscript)}
+
+    def releases_key(n, keys=keys):
+      # the worker taken OUT of the container is released by name: the clean-up
+      # loop over the container (in a finally) no longer covers it
+      if n.kind == 'for_iter':
+        return False
+      return any(isinstance(x, ast.Call) and isinstance(x.func, ast.Attribute) and x.func.attr == 'release'
+                 and unparse(x.func.value) in keys for x in cfgm.node_exprs(n))
+
+    preds = [q for q in g.nodes for s_, lab_ in q.succ if s_ is d and lab_ not in ('exc', 'close')]
+    if preds and all(releases_key(q) for q in preds):
+      continue  # released first, then removed
     for s, lab in d.succ:
       if lab in ('exc', 'close'):
         continue
-      if _release_node(s):
+      if releases_key(s):
         continue
-      if g.must_pass(s, [g.exit_ret] + loop_conds, _release_node, cfgm.only_normal) is not None:
+      # every continuation, INCLUDING a raise of a statement in between
+      w = g.must_pass(s, [g.exit_ret, g.exit_exc] + loop_conds, releases_key, None)
+      if w is not None:
+        _CONTAINER_WITNESS[id(g)] = (d, w)
         return False
   return True
 
@@ -951,6 +995,17 @@ _U = 'utils/courier_utils.py'
 _W = 'chainables/courier_worker.py'
 _O = 'chainables/orchestrate.py'
 VARIANTS = [
+    B('stage-loop-release-after-raising-call', 'chainables/orchestrate.py',
+      '            del iterating[worker]\n            worker.release()\n            if exc := state.exception():\n              logging.exception(\n                  \'chainable: %s\',\n                  f\'worker {worker} failed with exception: {type(exc)}, {exc}\',\n              )\n              worker_exceptions.append(exc)',
+      '            del iterating[worker]\n            if exc := state.exception():\n              logging.exception(\n                  \'chainable: %s\',\n                  f\'worker {worker} failed with exception: {type(exc)}, {exc}\',\n              )\n              worker_exceptions.append(exc)\n            worker.release()', 'R-C20-6'),
+    OK('stage-loop-release-before-removal', 'chainables/orchestrate.py',
+       '            del iterating[worker]\n            worker.release()', '            worker.release()\n            del iterating[worker]'),
+    B('unregister-skips-unknown-address', 'utils/courier_utils.py',
+      '      # Set to None as the worker has pronouced dead.\n      self.data[address] = None',
+      '      if address not in self.data:\n        return\n      self.data[address] = None', 'R-C20-3'),
+    OK('unregister-logs-unknown-address', 'utils/courier_utils.py',
+       '      # Set to None as the worker has pronouced dead.\n      self.data[address] = None',
+       '      if address not in self.data:\n        logging.info(\'unknown %s\', address)\n      self.data[address] = None'),
     B('client-hash-from-mutable-configs', _U,
       '  def __hash__(self):\n    return hash(self.address)', '  def __hash__(self):\n    return hash(self.configs)',
       'R-C20-9'),
